@@ -46,6 +46,27 @@ def handleNary (j : Json) (op : String) : Except String Verdict := do
   let impl ← fArr j "impl"
   let pres := ops.map (presentPos dflt d)
   let tags := [s!"k{ops.length}"] ++ (if pres.any (·.isEmpty) then ["some-empty"] else [])
+  -- n-ary intersection with operands of uncompressed ranks ("fmtN": per operand null or {fmt, lo, sh}): every
+  -- operand is presented with payload references (`presentRef`), a fresh default being `none`
+  match j.getObjVal? "fmtN" with
+  | .ok (Json.arr fm) =>
+    if op != "nand" then throw "fmtN is generated for nand only"
+    let presR : List (Fib Int (Option Nat)) := (ops.zip fm.toList).map (fun (o, f) =>
+      match f with
+      | Json.null => presentRef "C" 0 0 dflt d o
+      | fj => presentRef "U" ((fNat fj "lo").toOption.getD 0) ((fNat fj "sh").toOption.getD 0) dflt d o)
+    match presR with
+    | [] => throw "nand without operands"
+    | a :: rest =>
+      let rows ← impl.mapM (fun r => do
+        match (← asList r) with
+        | [c, ps] => do pure ((← c.getInt?), (← asInts ps).map optPos)
+        | _ => throw "nand row")
+      let m := naryAnd a rest
+      return { agree := decide (m = rows), spec := decide (rows = naryAndSpec a rest),
+               model := jList (m.map (fun r => jList [jInt r.1, jList (r.2.map posJson)])),
+               tags := tags ++ ["nary-U"] ++ (if m.isEmpty then ["empty-result"] else ["nonempty-result"]) }
+  | _ => pure ()
   match op, pres with
   | "nand", a :: rest =>
     let rows ← impl.mapM (fun r => do
